@@ -89,6 +89,8 @@ def gen_case(rng, idx, sdir):
         out = []
         for i in range(n):
             p = gen.gen_prop(rng, "%s%d" % (prefix, i), hostile=0.1, cards=False, tuples=False)
+            if rng.random() < 0.15:
+                p["dtype"], p["values"] = "2-tuple", [["1", "2"], ["x", ""]][:rng.choice([1, 2])]
             p["dependency"] = p["dependency_value"] = None
             if rng.random() < 0.1:
                 # a Property that was created without a name: its id serves as name
